@@ -4,9 +4,10 @@
 // The driver's environment is the string one, so an int n >= 0 is shipped in unary: the byte string "x"*n.
 // Min(k) / Max(k) are then the length checks `min k` / `max k`, and an Overwrite is one of the two members of
 // the harness' callback family that keep a string in unary (drop the first byte, reverse). Refinements (round 4b) are
-// the harness' predicate family evaluated on the unary string; ZodIntegerTyped.Refine decides about nil by the
+// the harness' predicate family evaluated on the unary string. Since /repo 7db47f1 an accepted nil is not run through
+// refinements at all (before: ZodIntegerTyped.Refine decided about nil by the
 // receiver's IsNilable() at attachment time - recipes attach checks to the bare constructor, so a refinement always
-// reports nil, which is the model's rule with ctorPtr = false (what the driver uses for `hist int`).
+// reported nil, which is the legacy rule with ctorPtr = false, what the driver still passes for `hist int`).
 package main
 
 import (
